@@ -29,6 +29,16 @@ lemma jointR_nonneg {a b k n x η : ℝ} (ha : 0 < a) (hb : 0 < b) (hn : 0 < n) 
   have : 0 ≤ x + n := by linarith
   positivity
 
+lemma jointR_pos {a b k n x η : ℝ} (ha : 0 < a) (hb : 0 < b) (hn : 0 < n) (hx : 0 < x)
+    (h0 : 0 < η) (h1 : η < 1) : 0 < jointR a b k n x η := by
+  unfold jointR
+  have := gammaPDFReal_pos ha hb hx
+  have := rpow_pos_of_pos hx (k - 1)
+  have := rpow_pos_of_pos h0 x
+  have := rpow_pos_of_pos (by linarith : 0 < 1 - η) (n - 1)
+  have : 0 < x + n := by linarith
+  positivity
+
 /-- the Beta density integrates to 1 over the open unit interval -/
 lemma lintegral_betaPDFReal_Ioo {α β : ℝ} (hα : 0 < α) (hβ : 0 < β) :
     ∫⁻ η in Ioo (0 : ℝ) 1, ENNReal.ofReal (betaPDFReal α β η) = 1 := by
